@@ -431,6 +431,18 @@ async fn run(case: &Val) -> Val {
                 let e = w.conn.pending.get(&FAM).map(|p| p.is_empty()).unwrap_or(true);
                 out.push(Val::L(vec![Val::n(5), Val::b(e)]));
             }
+            8 => {
+                // session end: the real unregister_peer; the session's per-connection state is
+                // what a new PeerSession would start with
+                tables.unregister_peer(w.conn.remote_addr, &[], &[]);
+                w.conn.peer_event_rx = None;
+                w.conn.pending.clear();
+                w.conn.export_map = ExportMap::default();
+                w.fifo.clear();
+                w.mirror.clear();
+                w.registered = false;
+                out.push(Val::L(vec![Val::n(7)]));
+            }
             _ => panic!("verif: bad op"),
         }
         if code <= 3 {
@@ -472,13 +484,10 @@ async fn run(case: &Val) -> Val {
     // on_established, flushed through the socket
     let pending_empty = w.conn.pending.get(&FAM).map(|p| p.is_empty()).unwrap_or(true);
     let chan: Vec<Val> = w.fifo.iter().map(|c| Val::n(net_idx(&c.net))).collect();
-    let was_registered = w.registered;
     let mut fresh = Mirror::new();
-    if was_registered {
-        // whatever is still pending belongs to the old session
-        w.establish().await;
-        w.flush(&mut fresh).await;
-    }
+    // whatever is still pending belongs to the old session
+    w.establish().await;
+    w.flush(&mut fresh).await;
     out.push(Val::L(vec![
         Val::n(6),
         Val::b(pending_empty),
